@@ -58,14 +58,7 @@ func ValueOf(query *Query, current Map, any any) (any, error) {
 // Unwrapped returns the slice itself when no member is a literal or number wrapper,
 // otherwise a copy whose members are plain values
 func Unwrapped(slice []any) []any {
-	wrapped := false
-	for _, item := range slice {
-		switch item.(type) {
-		case NeutalString, *float64:
-			wrapped = true
-		}
-	}
-	if !wrapped {
+	if !HasWrapper(slice) {
 		return slice
 	}
 	out := make([]any, len(slice))
@@ -77,11 +70,30 @@ func Unwrapped(slice []any) []any {
 			if item != nil {
 				out[i] = *item
 			}
+		case []any:
+			// a tuple inside a tuple
+			out[i] = Unwrapped(item)
 		default:
 			out[i] = item
 		}
 	}
 	return out
+}
+
+// HasWrapper reports whether a member of the slice, or of a slice nested in it, is a
+// literal or number wrapper
+func HasWrapper(slice []any) bool {
+	for _, item := range slice {
+		switch item := item.(type) {
+		case NeutalString, *float64:
+			return true
+		case []any:
+			if HasWrapper(item) {
+				return true
+			}
+		}
+	}
+	return false
 }
 
 func AsType[T any](value any) (*T, error) {
